@@ -365,8 +365,10 @@ def c10_5(ctx):
                 continue
             a = arm[0]
             # arm nodes: reachable from the True edge before the next `key = read_varstr(s)` at loop level
-            body = cfg.reach([b for b, l in cfg.succ[a.id] if l is True], blocked={n.id for n in cfg.tests() if n.lineno > a.lineno and isinstance(n.ast, ast.Compare)
-                                                                               and isinstance(n.ast.comparators[0], ast.Name) and n.ast.comparators[0].id.startswith("PSBT_")})
+            head = a.loops[-1] if a.loops else None
+            end = _arm_end(cfg, a)
+            body = cfg.reach([b for b, l in cfg.succ[a.id] if l is True], blocked={head} if head is not None else set())
+            body = {i for i in body if a.lineno <= cfg.nodes[i].lineno < end}
             stores = [cfg.nodes[i] for i in sorted(body) if cfg.nodes[i].kind == "stmt" and isinstance(cfg.nodes[i].ast, ast.Assign) and isinstance(cfg.nodes[i].ast.targets[0], ast.Name)
                       and cfg.nodes[i].ast.targets[0].id in ctor_names and cfg.nodes[i].ast.targets[0].id not in ("key",) and cfg.nodes[i].lineno < _arm_end(cfg, a)]
             if not stores:
